@@ -498,7 +498,7 @@ def default_of(ty):
         return MapV([], ty)
     if t in ('HashSet', 'BTreeSet'):
         return MapV([], ty, True)
-    if t == 'String':
+    if t == 'String' or (ty or '').strip() in ('&str', "&'static str", 'str'):
         return StrV(text='')
     raise MirError('default of ' + str(ty))
 
